@@ -49,7 +49,9 @@ RULE = (
 )
 ASSUMPTIONS = [
     "CPython 3.12 inspect.signature / typing.get_overloads / property objects are the reference; annotations are compared as "
-    "text under `from __future__ import annotations` (CPython's own stringification), defaults are literals with repr(value) == source text",
+    "text under `from __future__ import annotations` (CPython's own stringification), the default expression Griffe reports is evaluated and must "
+    "denote CPython's default value (same type and repr; the pool includes literals whose text differs from repr: overflowing floats, hex, "
+    "underscores, exponents, implicit str/bytes concatenation)",
     "for static/class methods the reference is the signature of the underlying function (__func__): Griffe reports the definition, not the bound view",
     "*args/**kwargs carry Griffe's documented pseudo defaults '()' / '{}'; has-default / required-ness is compared for non-variadic parameters only",
     "overload groups: per scope and name, overloads precede at most one implementation (no re-definition of an implementation, no overload after it); "
